@@ -18,7 +18,8 @@ import struct
 from vlib import common as C
 
 PROP = "Vita.C06.Props"
-HARNESS = "c06_run"
+HARNESS_RUN = "c06_run"      # comp / run cases
+HARNESS_TUNE = "c06_tune"    # ops / ring / tune cases
 DRIVER = "c06_driver"
 
 
@@ -207,39 +208,38 @@ def tune_tags(case, expected):
 # --------------------------------------------------------------------------- running
 
 def run_shard(exe, cases, tag):
-    """Run the harness on `cases`; returns (observations, deaths) where observations is a list of
-    (case_index, oracle, expected, request) and deaths a list of (case_index, rc, stderr_tail)."""
+    """Run the harness on `cases` (it forks one child per case); returns (observations, deaths):
+    observations = [(case_index, oracle, expected, request)], deaths = [(case_index, rc, stderr of the case)]."""
     obs, deaths = [], []
-    start = 0
     wd = os.path.join(C.BUILD, "c06")
     os.makedirs(wd, exist_ok=True)
-    while start < len(cases):
-        path = os.path.join(wd, f"cases-{tag}.txt")
-        with open(path, "w") as f:
-            f.write("\n".join(cases[start:]) + "\n")
-        rc, so, se = C.run_harness(exe, [path], inp=b"", timeout=3000)
-        cur, done = None, -1
-        for ln in so.splitlines():
-            if ln.startswith("# case "):
-                w = ln.split()
-                if w[3] == "begin":
-                    cur = start + int(w[2])
-                else:
-                    done = start + int(w[2])
-                    cur = None
-                continue
-            parts = ln.split("|", 2)
-            if len(parts) == 3 and cur is not None:
-                obs.append((cur, parts[0], parts[1], parts[2]))
-        if rc == 0 and cur is None and done == len(cases) - 1:
-            break
-        died = cur if cur is not None else done + 1
-        if died >= len(cases):
-            break
-        deaths.append((died, rc, se[-2500:]))
-        start = died + 1
-        if len(deaths) > 20:
-            break
+    path = os.path.join(wd, f"cases-{tag}.txt")
+    with open(path, "w") as f:
+        f.write("\n".join(cases) + "\n")
+    rc, so, se = C.run_harness(exe, [path], inp=b"", timeout=6000)
+    errs = {}
+    for chunk in se.split("## case ")[1:]:
+        head, _, body = chunk.partition("\n")
+        if body.strip() and head.strip().isdigit():
+            errs[int(head)] = body
+    cur, last = None, -1
+    for ln in so.splitlines():
+        if ln.startswith("# case "):
+            w = ln.split()
+            last = int(w[2])
+            if w[3] == "begin":
+                cur = last
+            else:
+                if w[3] == "died":
+                    deaths.append((last, int(w[4]), errs.get(last, "")[-2500:]))
+                cur = None
+            continue
+        parts = ln.split("|", 2)
+        if len(parts) == 3 and cur is not None:
+            obs.append((cur, parts[0], parts[1], parts[2]))
+    if rc != 0 or last != len(cases) - 1 or cur is not None:
+        deaths.append((min(last + (0 if cur is not None else 1), len(cases) - 1), rc,
+                       "the harness itself stopped early: " + se[-1500:]))
     return obs, deaths
 
 
@@ -254,7 +254,10 @@ def run(chk, replay=None):
         ok2, _ = C.lake_build([DRIVER])
         drv_ok = ok2
 
-    exe = C.build_harness(HARNESS, "asan")
+    C.build_vita("asan")
+    with cf.ThreadPoolExecutor(2) as ex:          # the two translation units compile in parallel
+        exes = list(ex.map(lambda n: C.build_harness(n, "asan"), [HARNESS_RUN, HARNESS_TUNE]))
+    exe_for = lambda case: exes[0] if case.split()[0] in ("comp", "run") else exes[1]
 
     # ---- cases -----------------------------------------------------------
     cases = []
@@ -275,16 +278,20 @@ def run(chk, replay=None):
         cases += gen_runs(rng, 420 if not thorough else 4200, thorough)
 
     # ---- harness (sharded) + driver ----------------------------------------
-    nshard = 1 if len(cases) < 8 else 6
-    shards = [[] for _ in range(nshard)]
-    index = [[] for _ in range(nshard)]
-    # interleave so that every shard gets a similar mix
-    for i, c in enumerate(cases):
-        shards[i % nshard].append(c)
-        index[i % nshard].append(i)
+    # shards: interleaved so that each gets a similar mix; one harness binary per shard
+    groups = [[c for c in cases if exe_for(c) == exes[0]], [c for c in cases if exe_for(c) == exes[1]]]
+    shards, shard_exe = [], []
+    for g, e, n in ((groups[0], exes[0], 5), (groups[1], exes[1], 2)):
+        n = 1 if len(g) < 8 else n
+        for k in range(n):
+            part = g[k::n]
+            if part:
+                shards.append(part)
+                shard_exe.append(e)
+    nshard = max(len(shards), 1)
 
     def work(k):
-        obs, deaths = run_shard(exe, shards[k], f"{chk.tier}-{chk.seed}-{k}")
+        obs, deaths = run_shard(shard_exe[k], shards[k], f"{chk.tier}-{chk.seed}-{k}")
         reqs = [o[3] for o in obs]
         ans = C.run_driver(DRIVER, reqs) if (drv_ok and reqs) else None
         return obs, deaths, ans
